@@ -231,6 +231,15 @@ def world_op(j):
         w = WriteToPaths(config)
         if do == "create":
             return bool(w.create(j["sid"], data))
+        if j.get("via") in ("set_kw", "set_attr") and data and set(data) & {"sid", "attribute", "value", "self"}:
+            return bool(w.update(j["sid"], data))      # such names cannot be spelled as keywords of set()
+        if j.get("via") == "set_kw" and data:
+            return bool(w.set(j["sid"], **data))
+        if j.get("via") == "set_attr" and data:      # an explicit attribute AND keywords in one call
+            # the LAST pair as the explicit attribute: set() appends it after the keywords, so the order of a
+            # first write is the order of the pairs
+            (k0, v0), rest = list(data.items())[-1], dict(list(data.items())[:-1])
+            return bool(w.set(j["sid"], k0, v0, **rest))
         return bool(w.update(j["sid"], data or {}))
     if do == "plant":
         p = Path(to_real(j["path"]))
@@ -498,6 +507,8 @@ def main():
         j = json.loads(line)
         try:
             r = {"ok": step(j)}
+        except RecursionError as e:
+            r = {"err": "recursion", "msg": "RecursionError"}
         except RuntimeError as e:
             r = {"bad": str(e)}
         except BaseException as e:  # noqa
